@@ -47,13 +47,11 @@ def cases(ctx, binary, out):
     if r["distinct"] != len(lines) + 1:
         raise Infra("Trace_Noise did not evaluate every line")
     flagged = []
-    for m in re.finditer(r'<<"NOISE_LINE", (\d+), "DIFF", "(\w*)", "C03", (\w+), '
-                         r'"C04", (\w+),\s*"CONFUSION", (\w+)>>',
-                         r["out"].replace("\n", " ")):
-        flagged.append({"line": int(m.group(1)), "diff": m.group(2),
-                        "c03": m.group(3) == "TRUE", "c04": m.group(4) == "TRUE",
-                        "confusion": m.group(5) == "TRUE",
-                        "rec": lines[int(m.group(1)) - 1]})
+    from vlib import printed_tuples
+    for t in printed_tuples(r["out"], "NOISE_LINE"):
+        # [line, "DIFF", d, "C03", b, "C04", b, "CONFUSION", b]
+        flagged.append({"line": t[0], "diff": t[2], "c03": t[4], "c04": t[6],
+                        "confusion": t[8], "rec": lines[t[0] - 1]})
     return lines, flagged, r
 
 
